@@ -133,6 +133,46 @@ Section WithStr.
   Definition eq_m (a b : pyterm) : bool := eq_m_s (R a) (R b) a b.
 End WithStr.
 
+(* ---------------------------------------------------------------- repaired Var/Constant equality *)
+(* fixes/C18-constant-var-eq.patch: when the other operand is a Term,
+     Var.__eq__      = isinstance(other, Var) and self.name == other.name
+     Constant.__eq__ = isinstance(other, Constant) and type(self.functor) == type(other.functor)
+                       and self.functor == other.functor
+   which is exactly what the walk computes on a Var / Constant node, so every
+   `==` of the family is the walk (with the reflected-operand swap), and
+   AnnotatedDisjunction.__eq__ compares heads and body element-wise.         *)
+Definition eq_nonad_t (a b : pyterm) : bool :=
+  if exact_term a && negb (exact_term b) then walk b a else walk a b.
+
+Definition eq_elem_t (a b : pyterm) : bool :=
+  match a, b with
+  | PNone, PNone => true
+  | PInt x, PInt y => Z.eqb x y
+  | PNode _ _ _, PNode _ _ _ => eq_nonad_t a b
+  | _, _ => false
+  end.
+
+Fixpoint list_eqb_t (l1 l2 : list pyterm) : bool :=
+  match l1, l2 with
+  | [], [] => true
+  | x :: r1, y :: r2 => eq_elem_t x y && list_eqb_t r1 r2
+  | _, _ => false
+  end.
+
+Definition eq_typed (a b : pyterm) : bool :=
+  match a, b with
+  | PAD h1 b1, PAD h2 b2 => list_eqb_t h1 h2 && eq_elem_t b1 b2
+  | PNode _ _ _, PNode _ _ _ => eq_nonad_t a b
+  | _, _ => false      (* AD against anything else: type mismatch in every __eq__ involved *)
+  end.
+
+(* `a == b` for the tree under test: ta = true when the repaired bodies are
+   present (generated flag GenCfg.typed_atoms), sa sb = str(a), str(b)       *)
+Definition eq_cfg_s (ta : bool) (R : pyterm -> string) (sa sb : string) (a b : pyterm) : bool :=
+  if ta then eq_typed a b else eq_m_s R sa sb a b.
+Definition eq_cfg (ta : bool) (R : pyterm -> string) (a b : pyterm) : bool :=
+  eq_cfg_s ta R (R a) (R b) a b.
+
 (* ---------------------------------------------------------------- str() *)
 Definition dec (z : Z) : string := NilZero.string_of_int (Z.to_int z).
 
@@ -177,6 +217,10 @@ Fixpoint size (t : pyterm) : nat :=
 
 Definition fis (f : pyval) (name : string) : bool :=
   match f with VStr s => String.eqb s name | _ => false end.
+
+Section Printer.
+  (* ta: Var/Constant.__eq__ repaired (the list printer calls `tail == Term("[]")`) *)
+  Variable ta : bool.
 
 Fixpoint inner (n : nat) (t : pyterm) {struct n} : string :=
   match n with
@@ -232,9 +276,9 @@ with list_tail (n : nat) (t : pyterm) {struct n} : string :=
     match t with
     | PNode _ f [x; y] => if fis f "." then ", " ++ inner n x ++ list_tail n y else dflt
     | PNode c f [] =>
-        (* `tail == Term("[]")`: walk for a plain Term, str comparison for Var/Constant,
-           type mismatch for the other classes *)
-        if (cls_eqb c CTerm || cls_eqb c CConst || cls_eqb c CVar) && String.eqb (str_val f) "[]"
+        (* `tail == Term("[]")`: walk for a plain Term, str comparison for Var/Constant
+           (type mismatch once their __eq__ is repaired: ta), type mismatch for the other classes *)
+        if (cls_eqb c CTerm || (negb ta && (cls_eqb c CConst || cls_eqb c CVar))) && String.eqb (str_val f) "[]"
         then "" else dflt
     | _ => dflt
     end
@@ -270,6 +314,7 @@ Fixpoint repr_m (t : pyterm) {struct t} : string :=
       else inner_top t
   | _ => inner_top t
   end.
+End Printer.
 
 (* ---------------------------------------------------------------- hashing *)
 Definition key_val (v : pyval) : hkey :=
